@@ -1,7 +1,7 @@
 #!/bin/sh
 # Re-confirm every kept seeded defect against the current /repo HEAD (fix commits may invalidate a seed's trigger).
 cd /verif
-for d in seeded/C* seeded/R2-*; do
+for d in ${SEEDS:-seeded/C* seeded/R2-* seeded/R3-*}; do
   id=$(basename $d)
   out=$(tools/confirm_seed.py $d ${id}-recheck 2>&1)
   ok=$(echo "$out" | grep -c '"confirmed": true')
